@@ -185,6 +185,7 @@ func runC04(c *Ctx) {
 	c.c04PatternsHandedDown(fns)
 	c.c04FailuresAreNotOvertaken(fns)
 	c.c04GivenPathMatchedWhole(fns)
+	c.c04BackendsOnlyRemove()
 	c.rule("N14", absentOnlyWhenAbsentText, 3)
 	c.c04AbsentOnlyWhenAbsent("N14", nil)
 	for _, f := range fns {
@@ -1254,5 +1255,47 @@ func (c *Ctx) c04GivenPathMatchedWhole(fns []*ssa.Function) {
 			c.check(reduced == "", "N18", key, c.ipos(cl), "the path given is matched as it is",
 				"the path given is reduced with "+reduced+" before it is matched: a file below an excluded directory (…/vault/sub/data.txt with the pattern `vault`), or one a pattern designates in path form, is no longer recognised as excluded — the library's own IsPathExcludedFromPatterns says it is — and it is removed")
 		})
+	}
+}
+
+// c04BackendsOnlyRemove (N19): the removal hands every path — symbolic links among them, after its own Lstat test — to the
+// backend's Remove. The backends the package defines itself (the extended OS filesystem, wrappers) may override that
+// primitive; an override only removes: anything it does to the path beforehand that goes through links (chmod, chown,
+// chtimes — "make it writable and try again") is done to what a link points to, outside the tree, behind the back of the
+// link test the removal made.
+func (c *Ctx) c04BackendsOnlyRemove() {
+	c.rule("N19", "a Remove / RemoveAll method defined by a backend type of package filesystem applies no link-following operation (chmod, chown, chtimes) to the path it is given", 0)
+	n := 0
+	for _, f := range c.srcFuncs(fsPkgRel) {
+		if f.Signature.Recv() == nil || f.Blocks == nil || (f.Name() != "Remove" && f.Name() != "RemoveAll") {
+			continue
+		}
+		if strings.Contains(f.Signature.Recv().Type().String(), "filesystem.VFS") {
+			continue // the layer itself: N1–N18
+		}
+		n++
+		c.FuncsSeen[fname(f)] = true
+		bad := ""
+		allInstrs(f, func(in ssa.Instruction) {
+			cc := callCommon(in)
+			if cc == nil {
+				return
+			}
+			name := ""
+			if cc.IsInvoke() {
+				name = cc.Method.Name()
+			} else if g := staticCallee(cc); g != nil {
+				name = g.Name()
+			}
+			switch name {
+			case "Chmod", "Chown", "Chtimes", "ChangeOwnership", "ChmodRecursively", "ChownRecursively":
+				bad = c.ipos(in) + " (" + name + ")"
+			}
+		})
+		c.check(bad == "", "N19", fname(f)+"/only-removes", c.pos(f.Pos()), "the backend's removal primitive does nothing to the path but remove it",
+			"the backend's own "+f.Name()+" applies a link-following operation to the path at "+bad+": the removal hands it symbolic links too (it tested them with Lstat and does not descend), so where removing a link is refused (a read-only or immutable directory) the file or directory the link points to — outside the tree — has its mode, owner or times changed")
+	}
+	if n == 0 {
+		c.info("N19", "filesystem/no-backend-overrides-remove", "-", "no backend type of package filesystem defines Remove / RemoveAll itself: the embedded afero primitive is used")
 	}
 }
